@@ -104,6 +104,9 @@ pub struct TextSpec {
     /// add multi-line constructs: a defset with an anonymous def, a class whose template
     /// arguments continue on the next line, let / foreach blocks, a def spanning two lines
     pub rich: bool,
+    /// more of the language: multiclass / defm, defvar, if / else, bang operators, lists,
+    /// assert, a field referring to an inherited field
+    pub rich2: bool,
 }
 
 fn wide(alphabet: Alphabet, n: u32) -> &'static str {
@@ -163,6 +166,16 @@ impl TextSpec {
             s.push_str(&format!("let x = 5 in {{{e}  def L_{k} : K_{k};{e}}}{e}"));
             s.push_str(&format!("foreach i = [1, 2] in {{{e}  def : M_{k}<i, 2>;{e}}}{e}"));
             s.push_str(&format!("def X_{k} : M_{k}<1,{e}              2>;{e}"));
+        }
+        if self.rich2 {
+            s.push_str(&format!("class N_{k}<int p, int q> {{ int y = p; }}{e}"));
+            s.push_str(&format!("multiclass MC_{k}<int n> {{{e}  def _one : K_{k} {{{e}    let x = n;{e}  }}{e}  def _two : N_{k}<n, 2>;{e}}}{e}"));
+            s.push_str(&format!("defm DM_{k} : MC_{k}<4>;{e}"));
+            s.push_str(&format!("defvar W_{k} = 7;{e}"));
+            s.push_str(&format!("if !eq(W_{k}, 7) then {{{e}  def IF_{k} : K_{k};{e}}} else {{{e}  def EL_{k} : K_{k};{e}}}{e}"));
+            s.push_str(&format!("class BO_{k} {{{e}  int s = !add(1, 2);{e}  string t = !strconcat(\"a\", \"b\");{e}  list<int> l = [1, 2, 3];{e}  bit b = !lt(1, 2);{e}}}{e}"));
+            s.push_str(&format!("assert !eq(W_{k}, 7), \"seven\";{e}"));
+            s.push_str(&format!("def FA_{k} : K_{k} {{{e}  int z = x;{e}}}{e}"));
         }
         for u in &self.uses {
             s.push_str(&format!("def D_{k}_{u} : K_{u} {{ let x = 2; }}{e}"));
@@ -250,7 +263,7 @@ pub fn identifier_offsets(text: &str) -> Vec<(u32, String)> {
     out
 }
 
-const KEYWORDS: [&str; 11] = ["include", "class", "def", "int", "string", "let", "defset", "in", "bit", "foreach", "list"];
+const KEYWORDS: [&str; 19] = ["include", "class", "def", "int", "string", "let", "defset", "in", "bit", "foreach", "list", "multiclass", "defm", "defvar", "if", "then", "else", "assert", "dump"];
 
 /// Offsets of identifiers that are names (not keywords): where requests are interesting.
 pub fn name_offsets(text: &str) -> Vec<(u32, String)> {
@@ -334,6 +347,7 @@ pub fn gen_text(rng: &mut Rng, vs: &mut Versions, key: &str, includable: &[&str]
         alphabet: cfg.alphabet,
         inline_wide: cfg.alphabet != Alphabet::Ascii && rng.chance(1, 2),
         rich: rng.chance(1, 3),
+        rich2: rng.chance(1, 3),
         dotted: rng.chance(1, 6),
         trail: rng.chance(1, 5),
         no_final_eol: rng.chance(1, 5),
@@ -365,7 +379,8 @@ pub fn edit_text(rng: &mut Rng, vs: &mut Versions, prev: &TextSpec, includable: 
         return t;
     }
     t.version = vs.next();
-    match rng.below(13) {
+    match rng.below(14) {
+        13 => t.rich2 = !t.rich2,
         12 => t.pp = cfg.eol == Eol::Lf && !t.pp,
         11 => t.no_final_eol = !t.no_final_eol,
         10 => t.trail = !t.trail,
